@@ -48,6 +48,12 @@ func genC16(r *Rand, tier string) *Case {
 	for n := r.Range(1, 3); n > 0; n-- {
 		sc.Closers = append(sc.Closers, Closer{Calls: r.PickInt(1, 1, 2)})
 	}
+	// steer half of the scenarios so that Close begins while some handler is
+	// running (or a command is about to be admitted): the first Close caller is
+	// held at its start until a connection has passed that point
+	if r.Bool() {
+		sc.Holds = append(sc.Holds, Hold{Task: 1 + nconn, Point: "closer.start", Until: 1 + r.Intn(nconn), UntilPoint: r.Pick("cb.stmt", "op.yield", "cb.parse", "cmd.before-admission", "cmd.admitted", "op.row")})
+	}
 	c.Sched = sc
 	return c
 }
